@@ -679,7 +679,9 @@ TRUSTED = [
     "axioms (stdlib only): ClassicalDedekindReals.sig_forall_dec, sig_not_dec, FunctionalExtensionality.functional_extensionality_dep, "
     "Classical_Prop.classic (Coq reals / Coquelicot RInt); no FloatAxioms are used: floats are only computed with and decoded by Prim2SF",
     "hand-written models C17/Model.v of cgauleg_pywrap.c, integrate/util.py, stat.interplin; tied to the working tree by bit-for-bit "
-    "correspondence on every run (differential testing, bounded by the generators) and by the source constants EPS, pi parsed from the C file",
+    "correspondence on every run (differential testing, bounded by the generators) and by a fail-closed translator "
+    "(harness/props/c17_translate.py: C statement/expression parser + python ast) that re-emits every float/int assignment of the anchored "
+    "code as Gallina and checks gen_X = F.X by reflexivity and the control skeleton (loop kinds and bounds, statement order) by comparison",
     "measured, not modelled: libm cos (Newton start values; python's math.cos = the same libm, on the arguments the model computes; "
     "the outputs are certified whatever the start values are); user integrands (their returned values are inputs)",
     "modelled, not verified: numpy float64 pairwise add.reduce, searchsorted on ascending data, min/max, elementwise IEEE arithmetic, meshgrid layout",
@@ -796,23 +798,33 @@ def run_entry(ctx, preamble, entry, cases, tag):
     return res
 
 
-def source_constants(ctx):
-    """T-const tie: EPS and pi as written in cgauleg_pywrap.c must be the model's constants"""
-    p = os.path.join(ctx.impl, "esutil", "integrate", "cgauleg_pywrap.c")
+def translation_step(ctx):
+    """Tie by translation (DESIGN 4.1): c17_translate re-reads cgauleg_pywrap.c, integrate/util.py and
+    stat/util.py of the tree under test, checks their control skeleton and re-emits every float / int
+    statement as Gallina; each  gen_X = F.X  lemma (reflexivity) is one obligation."""
+    from . import c17_translate as tr
     try:
-        src = open(p).read()
-        eps = float(re.search(r"\bEPS\s*=\s*([0-9.eE+-]+)\s*;", src).group(1))
-        pi = float(re.search(r"\bpi\s*=\s*([0-9.eE+-]+)\s*;", src).group(1))
-        vals = core.coq_eval(ctx.work + "/consts", PRE, ["v_consts %s %s" % (core.cfloat(eps), core.cfloat(pi))], tag="consts")
-        ok = vals == ["0"]
-        detail = "EPS=%r pi=%r" % (eps, pi)
-    except Exception as e:  # noqa
-        ok, detail = False, "could not read the constants: %s" % e
-    ctx.obligation("source constants EPS, pi of cgauleg_pywrap.c equal the model's (T-const)", ok, detail)
-    if not ok:
-        ctx.violation("EPS/pi in cgauleg_pywrap.c differ from the constants of the Coq model (%s)" % detail,
-                      {"kind": "translation", "no_longer_checks": "T-const EPS/pi of C17/Model.v", "detail": detail},
+        defs, lemmas, consts = tr.translate(ctx.impl)
+    except tr.TranslateError as e:
+        ctx.obligation("translator reads the anchored sources (fail-closed)", False, str(e))
+        ctx.violation("translator failed (fail-closed): %s" % e,
+                      {"kind": "translation", "error": str(e),
+                       "no_longer_checks": "T-gen tie of C17/Model.v (statements of cgauleg_pywrap.c / integrate/util.py / stat.interplin)"},
                       found_input=False)
+        return
+    ctx.obligation("translator reads the anchored sources (fail-closed)", True)
+    res = core.coq_lemmas(os.path.join(ctx.work, "gen"), tr.PREAMBLE + defs, [(st, pr) for st, pr, _ in lemmas],
+                          shard=len(lemmas), tag="gen")
+    bad = []
+    for (st, pr, what), (ok, msg) in zip(lemmas, res):
+        ctx.obligation("translated source statement equals the model's: %s" % what, ok, "" if ok else msg[-300:])
+        if not ok:
+            bad.append({"tie": what, "statement": st, "coq": msg[-600:]})
+    ctx.count("translated_statements", len(lemmas))
+    if bad:
+        ctx.violation("source statements differ from the Coq model (%s)" % ", ".join(b["tie"] for b in bad[:6]),
+                      {"kind": "translation", "no_longer_checks": [b["tie"] for b in bad], "detail": bad[:6],
+                       "generated_definitions": defs[:6000]}, found_input=False)
 
 
 def run(ctx, replay=None):
@@ -825,7 +837,7 @@ def run(ctx, replay=None):
                 "histories with >= 3 calls and >= 2 distinct explicit counts.  distinct by canonical JSON.")
     ctx.trusted = TRUSTED
     core.proof_step(ctx, "C17", core.ALLOW_DISCRETE + core.ALLOW_REALS + core.ALLOW_INTERVAL + core.ALLOW_FLOAT)
-    source_constants(ctx)
+    translation_step(ctx)
     differential_sharded(ctx, PRE, ENTRIES, replay)
     for ent in ENTRIES:
         k = sum(v for key, v in ctx.dist.items() if key.startswith("verdict:%s:" % ent.name))
